@@ -75,6 +75,12 @@ class C09(Spec):
     expected_probes = ('frames',)
 
     def make_case(self, seed, tier):
+        if seed % 4 == 3:
+            # transfers / inputs / outputs with asymmetric sender and receiver sets
+            rng = random.Random(f'C09io/{seed}')
+            cfg = sample_cfg(rng, tier, m_min=2)
+            return {'family': 'io', 'cfg': cfg.to_json(), 'prog': iofam.gen(rng, cfg, tier), 'seed': seed,
+                    'start_delays': sample_start_delays(rng, cfg.m)}
         return _int_case('C09', seed, tier, effects=(seed % 2 == 0), K=2)
 
     def monitors(self, case):
